@@ -235,6 +235,8 @@ def api_job(job):
         st = r["tables"]["state_data"]
         out["expected2"] = 40 + sum(weights2[row["postal_code"]] for row in st.to_dict("records") if row["pred_margin"] > 0)
         out["expected1"] = 5 + sum(weights[row["postal_code"]] for row in st.to_dict("records") if row["pred_margin"] > 0)
+        if case["params"]["model_parameters"].get("agg_model_hard_threshold", True) is False:
+            out["expected1"] = out["expected2"] = None          # the prediction-definition clause is stated for the hard threshold
     except Exception as e:  # noqa: BLE001
         out["sum_exc"] = (type(e).__name__, str(e)[:200])
     return out
@@ -267,7 +269,9 @@ def api_called_job(seed):
     try:
         df = r["client"].get_national_summary_votes_estimates(weights, 7, [0.7, 0.9])
         out["summary"] = df.to_dict("records")
-        out["expected"] = 7 + sum(weights[n] for n in lhs)
+        # with the soft threshold the prediction is a sum of fractional counts: only "no uncertainty left" is required there
+        soft = case["params"]["model_parameters"].get("agg_model_hard_threshold", True) is False
+        out["expected"] = None if soft else 7 + sum(weights[n] for n in lhs)
     except Exception as e:  # noqa: BLE001
         out["sum_exc"] = (type(e).__name__, str(e)[:200])
     return out
@@ -371,8 +375,9 @@ def run(chk):
             continue
         for row in o["summary"]:
             vals = [v for k_, v in row.items() if isinstance(v, (int, float)) and not isinstance(v, bool)]
-            if any(abs(v - o["expected"]) > 0.0051 for v in vals):
-                chk.violation(f"{o['office']} office, every contest called for its leader (left: {o['lhs']}): summary {row} but prediction and both bounds should all be {o['expected']}",
+            target = o["expected"] if o["expected"] is not None else row["agg_pred"]
+            if any(abs(v - target) > 0.0051 for v in vals):
+                chk.violation(f"{o['office']} office, every contest called for its leader (left: {o['lhs']}): summary {row} but prediction and both bounds should all be {target}",
                               replay_c, {"kind": "called"})
                 break
     if not ok and not [v for v in chk.violations if not v["no_input"]]:
